@@ -3,7 +3,7 @@ import argparse
 from vlib.cond import Cond, P
 from trees import transform, treeinput, treeoutput
 from harness import stubs, c01, c02, c03
-from harness.formats import (enc_export, dec_export, dec_brackets, dec_tiger, dec_terminals, spec_tokens, show)
+from harness.formats import (enc_export, dec_export, dec_brackets, dec_tiger, dec_terminals, spec_tokens, show, decode_file)
 from harness.symtree import wellformed
 
 FUNCS = ["treeoutput.parse_split_specification", "transform.run (split branch)", "transform.filter_by_length",
@@ -126,9 +126,9 @@ def distribute(s, df, sp, flt, **kw):
         transform.run(_args("u.out", fmt, "", trans, params))
     except Exception as e:      # noqa
         return "unsplit run failed: %s: %s" % (type(e).__name__, e)
-    whole = _body(fmt, stubs.get("u.out"))
-    if whole is None:
-        return "unsplit %s output has no framing" % fmt
+    whole, prob = decode_file(fmt, stubs.get("u.out"))
+    if prob:
+        return "unsplit %s output does not decode: %s" % (fmt, prob)
     parts_exp = None
     try:
         import re
@@ -155,15 +155,17 @@ def distribute(s, df, sp, flt, **kw):
     extra = [n for n in stubs.MemFS.files if n.startswith("s.out") and n not in names]
     if extra:
         return "unexpected part files %r" % extra
-    cat = ""
+    cat = []
     for i, nme in enumerate(names):
         if nme not in stubs.MemFS.files:
             return "part %d was not written" % i
         text = stubs.get(nme)
-        body = _body(fmt, text)
-        if body is None:
-            return "part %d is not a complete %s file: %r" % (i, fmt, text[:80])
-        cat += body
+        items, prob = decode_file(fmt, text)
+        if prob:
+            return "part %d is not a complete %s file: %s -- %r" % (i, fmt, prob, text[:80])
+        if len(items) != parts_exp[i]:
+            return "part %d holds %d sentences, specification %r of %d trees says %d" % (i, len(items), spec, len(kept), parts_exp[i])
+        cat.extend(items)
         # each part is accepted by the corresponding reader with the right number of trees
         if fmt != "terminals":
             try:
@@ -180,7 +182,7 @@ def distribute(s, df, sp, flt, **kw):
             if len(dec_terminals(text)) != parts_exp[i]:
                 return "part %d holds %d sentences, expected %d" % (i, len(dec_terminals(text)), parts_exp[i])
     if cat != whole:
-        return "parts concatenated differ from the unsplit output: %r vs %r" % (cat, whole)
+        return "the parts taken in order hold %r, the unsplit output %r" % (cat, whole)
     return ""
 
 
